@@ -22,7 +22,9 @@ instantiate/create_epoch write EPOCH; only reply/claim write EPOCHS (migrations 
 called once on the success path and its result attached with add_submessages. E6: there is no sender test on the
 creation paths. Induction over successful creations (each moves start by exactly one duration and id by one,
 and E1 is evaluated on the stored start) gives the gap-free clock; the induction itself is an argument, not a
-tool result.
+tool result. E7: every path storing a distributor epoch_config validates that value with validate_epoch_config, which
+accepts exactly duration >= 1 day. E8: the epoch manager's Epoch{id} query derives a past epoch's start from the stored
+clock: current.start_time - duration * (current.id - id).
 """
 ASSUMPTIONS = [
     "cw_controllers::Hooks::prepare_hooks produces exactly one message per registered hook (trusted library)",
@@ -51,6 +53,8 @@ def loaded(item_suffix, *proj):
 
 def run(ctx):
     model = ctx.model()
+    check_duration_floor(ctx, model)
+    check_query_epoch(ctx, model)
     # ---------------- epoch manager -------------------------------------------------------
     p = "epoch_manager::commands::create_epoch"
     v = ctx.view(p, "C20-E1")
@@ -272,3 +276,50 @@ def check_writers(ctx, model):
                        "%s written by %s" % (e.what, p) + ("" if base in allowed[e.what] or is_mig else " -- UNLISTED writer of the epoch clock"),
                        model.view(p).where(e.block), nontrivial=not is_mig)
     ctx.floor("C20-E4", "epoch clock write sites", n, 4)
+
+
+def check_duration_floor(ctx, model):
+    """E7: the distributor's epoch duration is what makes "not before a full day" true, so every path that stores a new
+    epoch_config (instantiate, update_config) passes validate_epoch_config applied to THAT value, and the validator accepts
+    exactly duration >= 86400 s (rules shared with C18-store / C18-validator)."""
+    from .C18 import validated_store, table_check, origin_pred_param_field, ok_blocks
+    n = 0
+    for fn in ["fee_distributor::contract::instantiate", "fee_distributor::commands::update_config"]:
+        v = ctx.view(fn, "C20-E7")
+        if v is not None:
+            n += validated_store(ctx, "C20-E7", v, "fee_distributor::state::CONFIG", ("epoch_config",),
+                                 r"^fee_distributor::helpers::validate_epoch_config$", "validate_epoch_config")
+    ctx.floor("C20-E7", "paths storing a new epoch_config", n, 2)
+    p = "fee_distributor::helpers::validate_epoch_config"
+    v = ctx.view(p, "C20-E7")
+    if v is not None:
+        table_check(ctx, "C20-E7", p, v, origin_pred_param_field(1, ("duration",)), [Fraction(86400 * 10**9)],
+                    lambda x: x >= 86400 * 10**9, ok_blocks(v), what="epoch duration")
+
+
+def check_query_epoch(ctx, model):
+    """E8: the epoch manager's Epoch{id} query reports the same clock the contract keeps: the stored epoch itself for the
+    current id, otherwise start_time = current.start_time - duration * (current.id - id) (operator tree, spelling normalised)."""
+    from ..dataflow import expr_shape, norm_shape
+    p = "epoch_manager::queries::query_epoch"
+    v = ctx.view(p, "C20-E8")
+    if v is None:
+        return
+    idp = None
+    for i in range(1, v.argc + 1):
+        if v.local_ty(i) == "u64":
+            idp = i
+    aggs = [(b, i, s_) for b, i, s_ in v.iter_stmts() if s_["rv"]["r"] == "agg" and s_["rv"].get("adt", "").endswith("EpochV2")]
+    if len(aggs) != 1 or idp is None:
+        ctx.missing("C20-E8", "single EpochV2 built in query_epoch")
+        return
+    b, i, s_ = aggs[0]
+    f = dict(zip(s_["rv"]["fields"], s_["rv"]["ops"]))
+    E = lambda fld: "load(epoch_manager::state::EPOCH).%s" % fld
+    want_start = norm_shape(("minus_nanos", (E("start_time"), ("mul", ("load(epoch_manager::state::CONFIG).epoch_config.duration",
+                                                                       ("sub", (E("id"), "param(%d)" % idp)))))))
+    got_start = norm_shape(expr_shape(v, f["start_time"], (b, i), depth=6))
+    got_start_n = got_start
+    got_id = norm_shape(expr_shape(v, f["id"], (b, i), depth=2))
+    ctx.ob("C20-E8", "%s|past-epoch-relative-to-the-stored-clock" % p, got_start_n == want_start and got_id == "param(%d)" % idp,
+           "Epoch{id}: id := %s, start_time := %s (expected %s)" % (got_id, got_start, want_start), v.where(b))
